@@ -1,6 +1,7 @@
 import MpVerif.C18.GenSem
 import MpVerif.Gen.C18
 import MpVerif.C18.Frozen
+import MpVerif.C18.Lemmas
 namespace MpVerif.C18
 open MpVerif.Gen.C18
 variable {C : Type} (N : NumOps C) (P : Prims C)
@@ -19,5 +20,323 @@ theorem gen_equal_step_diag_bin (k k' : BinK) (l r l' r' : E C) :
   · subst h
     cases k <;> simp [equalX, equalStep, equalEntry, visitCmp, E.kind, cmpBody, conjSem, atomSem, child]
   · simp [equalX, equalStep, equalEntry, E.kind, h]
+
+/-! ## loop-carrying handlers: list recursion of the hand model = index loops of the translated code -/
+
+
+@[simp] theorem R.not_not (r : R) : r.not.not = r := by cases r <;> rfl
+@[simp] theorem R.and_tt_right (r : R) : r.and .tt = r := by cases r <;> rfl
+@[simp] theorem R.ff_or (r : R) : R.ff.or r = r := rfl
+@[simp] theorem R.tt_or (r : R) : R.tt.or r = .tt := rfl
+@[simp] theorem R.ff_and (r : R) : R.ff.and r = .ff := rfl
+@[simp] theorem R.not_ofBool (b : Bool) : (R.ofBool b).not = R.ofBool (!b) := by cases b <;> rfl
+@[simp] theorem R.ofBool_true : R.ofBool true = .tt := rfl
+@[simp] theorem R.ofBool_false : R.ofBool false = .ff := rfl
+theorem R.and_assoc (x y z : R) : (x.and y).and z = x.and (y.and z) := by cases x <;> rfl
+
+@[simp] theorem opt2_some {α β : Type} (g : α → β → R) (x : α) (y : β) : opt2 g (some x) (some y) = g x y := rfl
+
+/-- element-wise short-circuit conjunction over two lists of the same length -/
+def andAll {α β : Type} (g : α → β → R) : List α → List β → R
+  | a :: as, b :: bs => (g a b).and (andAll g as bs)
+  | _, _ => .tt
+
+theorem andRange_zip {α β : Type} (g : α → β → R) :
+    ∀ (as : List α) (bs : List β) (f : Nat → R), as.length = bs.length →
+      (∀ k, k < as.length → f k = opt2 g as[k]? bs[k]?) →
+      andRange as.length f = andAll g as bs
+  | [], [], _, _, _ => rfl
+  | [], _ :: _, _, h, _ => by simp at h
+  | _ :: _, [], _, h, _ => by simp at h
+  | a :: as, b :: bs, f, h, hf => by
+    have h0 := hf 0 (by simp)
+    simp only [List.getElem?_cons_zero, opt2_some] at h0
+    simp only [List.length_cons, andRange, andAll, h0]
+    congr 1
+    apply andRange_zip g as bs (fun k => f (k + 1)) (by simpa using h)
+    intro k hk
+    have := hf (k + 1) (by simpa using hk)
+    simpa only [List.getElem?_cons_succ] using this
+
+/-! ### comparator: PL term -/
+
+theorem andAll_pl : ∀ (ps qs : List (C × C)), ps.length = qs.length →
+    andAll (fun p q => R.ofBool (N.feq p.1 q.1 && N.feq p.2 q.2)) ps qs = R.ofBool (plPairs N ps qs)
+  | [], [], _ => rfl
+  | [], _ :: _, h => by simp at h
+  | _ :: _, [], h => by simp at h
+  | p :: ps, q :: qs, h => by
+    simp only [andAll, plPairs, andAll_pl ps qs (by simpa using h)]
+    cases N.feq p.1 q.1 <;> cases N.feq p.2 q.2 <;> cases plPairs N ps qs <;> rfl
+
+theorem dAt_slope_lt (sb : List (C × C)) (last : C) (arg : E C) (k : Nat) (hk : k < sb.length) :
+    dAt .slope (.pl sb last arg) k = some sb[k].1 := by simp [dAt, hk]
+
+theorem dAt_breakpoint_lt (sb : List (C × C)) (last : C) (arg : E C) (k : Nat) (hk : k < sb.length) :
+    dAt .breakpoint (.pl sb last arg) k = some sb[k].2 := by simp [dAt, hk]
+
+theorem dAt_slope_last (sb : List (C × C)) (last : C) (arg : E C) :
+    dAt .slope (.pl sb last arg) sb.length = some last := by simp [dAt]
+
+theorem tie_cmp_pl_loop (rec : E C → E C → R) (sb sb' : List (C × C)) (last last' : C) (arg arg' : E C)
+    (hl : sb.length = sb'.length) :
+    andRange sb.length (fun k => semL N rec (.pl sb last arg) (.pl sb' last' arg')
+      [.failIf (.or (.neD .slope .idx) (.neD .breakpoint .idx))] k) = R.ofBool (plPairs N sb sb') := by
+  rw [← andAll_pl N sb sb' hl]
+  apply andRange_zip _ sb sb' _ hl
+  intro k hk
+  have hk' : k < sb'.length := hl ▸ hk
+  simp only [semL, semS, evalB, evalI, dAt_slope_lt sb last arg k hk, dAt_slope_lt sb' last' arg' k hk',
+    dAt_breakpoint_lt sb last arg k hk, dAt_breakpoint_lt sb' last' arg' k hk', opt2_some,
+    List.getElem?_eq_getElem hk, List.getElem?_eq_getElem hk', R.and_tt_right]
+  cases N.feq sb[k].1 sb'[k].1 <;> cases N.feq sb[k].2 sb'[k].2 <;> rfl
+
+theorem tie_cmp_pl (rec : E C → E C → R) (sb sb' : List (C × C)) (last last' : C) (arg arg' : E C) :
+    (if sb.length ≠ sb'.length then R.ff
+     else if plPairs N sb sb' = false then R.ff
+     else (R.ofBool (N.feq last last')).and (rec arg arg')) =
+    semL N rec (.pl sb last arg) (.pl sb' last' arg')
+      [.failIf .neCount,
+       .forRange .selfN [.failIf (.or (.neD .slope .idx) (.neD .breakpoint .idx))],
+       .ret (.and (.eqD .slope .selfN) (.equalChild .arg))] 0 := by
+  by_cases hl : sb.length = sb'.length
+  · have e : semL N rec (.pl sb last arg) (.pl sb' last' arg')
+        [.failIf .neCount,
+         .forRange .selfN [.failIf (.or (.neD .slope .idx) (.neD .breakpoint .idx))],
+         .ret (.and (.eqD .slope .selfN) (.equalChild .arg))] 0 =
+        ((R.ofBool (sb.length != sb'.length)).not).and
+          ((andRange sb.length (fun k => semL N rec (.pl sb last arg) (.pl sb' last' arg')
+              [.failIf (.or (.neD .slope .idx) (.neD .breakpoint .idx))] k)).and
+           (((opt2 (fun x y => R.ofBool (N.feq x y)) (dAt .slope (.pl sb last arg) sb.length)
+                (dAt .slope (E.pl sb' last' arg') sb.length)).and (opt2 rec (some arg) (some arg'))).and .tt)) := rfl
+    rw [e, tie_cmp_pl_loop N rec sb sb' last last' arg arg' hl, dAt_slope_last, hl, dAt_slope_last]
+    have hb : (sb'.length != sb'.length) = false := by simp
+    simp only [hb, ne_eq, not_true_eq_false, if_false, opt2_some, R.and_tt_right, R.ofBool_false, R.not, R.tt_and]
+    cases plPairs N sb sb' <;> simp
+  · have hb : (sb.length != sb'.length) = true := by simpa [bne_iff_ne] using hl
+    have e : semL N rec (.pl sb last arg) (.pl sb' last' arg')
+        [.failIf .neCount,
+         .forRange .selfN [.failIf (.or (.neD .slope .idx) (.neD .breakpoint .idx))],
+         .ret (.and (.eqD .slope .selfN) (.equalChild .arg))] 0 =
+        ((R.ofBool (sb.length != sb'.length)).not).and
+          (semL N rec (.pl sb last arg) (.pl sb' last' arg')
+            [.forRange .selfN [.failIf (.or (.neD .slope .idx) (.neD .breakpoint .idx))],
+             .ret (.and (.eqD .slope .selfN) (.equalChild .arg))] 0) := rfl
+    rw [e, hb]
+    simp [hl, R.not]
+
+/-! ### comparator: iterated expressions -/
+
+theorem tie_cmp_vararg_aux :
+    ∀ (as bs : List (E C)) (f : Nat → R),
+      (∀ k, k < as.length → f k =
+        ((R.ofBool (decide (bs.length ≤ k))).or ((opt2 (equalX N) as[k]? bs[k]?).not)).not) →
+      (andRange as.length f).and (R.ofBool (bs.length == as.length)) = equalList N as bs
+  | [], [], _, _ => rfl
+  | [], _ :: _, _, _ => by simp [andRange, equalList]
+  | a :: as, [], f, hf => by
+    have h0 := hf 0 (by simp)
+    simp only [List.length_nil, Nat.le_refl, decide_true, R.ofBool_true, R.tt_or, R.not] at h0
+    simp [andRange, equalList, h0]
+  | a :: as, b :: bs, f, hf => by
+    have h0 := hf 0 (by simp)
+    simp only [List.getElem?_cons_zero, List.length_cons, Nat.le_zero_eq, Nat.add_one_ne_zero, decide_false,
+      R.ofBool_false, R.ff_or, R.not_not, opt2_some] at h0
+    simp only [List.length_cons, andRange, equalList, h0, R.and_assoc]
+    congr 1
+    have := tie_cmp_vararg_aux as bs (fun k => f (k + 1)) (by
+      intro k hk
+      have := hf (k + 1) (by simpa using hk)
+      simpa only [List.getElem?_cons_succ, List.length_cons, Nat.add_le_add_iff_right] using this)
+    simpa using this
+
+theorem tie_cmp_vararg (k : IterK) (as bs : List (E C)) :
+    equalList N as bs =
+    semL N (equalX N) (.iter k as) (.iter k bs)
+      [.forRange .selfN [.failIf (.or (.otherExhausted .idx) (.not (.equalArg .idx)))],
+       .ret (.otherCountIs .selfN)] 0 := by
+  have e : semL N (equalX N) (.iter k as) (.iter k bs)
+      [.forRange .selfN [.failIf (.or (.otherExhausted .idx) (.not (.equalArg .idx)))],
+       .ret (.otherCountIs .selfN)] 0 =
+      (andRange as.length (fun i => semL N (equalX N) (.iter k as) (.iter k bs)
+        [.failIf (.or (.otherExhausted .idx) (.not (.equalArg .idx)))] i)).and
+        ((R.ofBool (bs.length == as.length)).and .tt) := rfl
+  rw [e, R.and_tt_right]
+  exact (tie_cmp_vararg_aux N as bs _ (fun i _ => by
+    simp only [semL, semS, evalB, evalI, selfCount, argAt, R.and_tt_right]
+    rfl)).symm
+
+/-! ### comparator: calls -/
+
+/-- one argument of `VisitCall` as the hand model writes it -/
+def argR (a b : E C) : R :=
+  if a.kind ≠ b.kind then R.ff
+  else if a.kind.isNumeric then equalX N a b
+  else match a, b with
+    | .str s, .str s' => R.ofBool (cstr s == cstr s')
+    | _, _ => equalX N a b
+
+theorem equalArgs_andAll : ∀ (as bs : List (E C)), as.length = bs.length →
+    equalArgs N as bs = andAll (argR N) as bs
+  | [], [], _ => by simp [equalArgs, andAll]
+  | [], _ :: _, h => by simp at h
+  | _ :: _, [], h => by simp at h
+  | a :: as, b :: bs, h => by
+    simp only [equalArgs, andAll, equalArgs_andAll as bs (by simpa using h)]
+    unfold argR
+    cases a <;> cases b <;> rfl
+
+/-- the body of the loop of `VisitCall` for one pair of arguments -/
+def callBody : List CStmt :=
+  [.failIf (.neKindArg .idx),
+   .ite (.isNumericArg .idx) [.failIf (.not (.equalArg .idx))]
+     [.ite (.isStringArg .idx) [.failIf (.strcmpNeArg .idx)] [.failIf (.not (.equalArg .idx))]]]
+
+theorem tie_cmp_call_elem (f g : Nat) (as bs : List (E C)) (k : Nat) (hk : k < as.length) (hk' : k < bs.length) :
+    semL N (equalX N) (.call f as) (.call g bs) callBody k = argR N as[k] bs[k] := by
+  simp only [callBody, semL, semS, evalB, evalG, evalI, argAt, List.getElem?_eq_getElem hk,
+    List.getElem?_eq_getElem hk', opt2_some, R.and_tt_right, R.not_not, R.not_ofBool]
+  generalize as[k] = a
+  generalize bs[k] = b
+  unfold argR
+  by_cases hkd : a.kind = b.kind
+  · simp only [hkd, ne_eq, not_true_eq_false, decide_false, Bool.not_false, R.ofBool_true, R.tt_and, if_false]
+    by_cases hn : b.kind.isNumeric
+    · simp [hn]
+    · simp only [hn, Bool.false_eq_true, if_false]
+      cases a <;> cases b <;> simp_all [E.kind, Kind.isNumeric, strcmpNe]
+      rename_i s s'
+      simp only [bne, Bool.not_not]
+  · simp [hkd]
+
+theorem tie_cmp_call (f g : Nat) (as bs : List (E C)) :
+    (if f ≠ g ∨ as.length ≠ bs.length then R.ff else equalArgs N as bs) =
+    semL N (equalX N) (.call f as) (.call g bs)
+      [.failIf (.or .neFunc .neCount), .forRange .selfN callBody, .ret .tru] 0 := by
+  have e : semL N (equalX N) (.call f as) (.call g bs)
+      [.failIf (.or .neFunc .neCount), .forRange .selfN callBody, .ret .tru] 0 =
+      (((R.ofBool (f != g)).or (R.ofBool (as.length != bs.length))).not).and
+        ((andRange as.length (fun k => semL N (equalX N) (.call f as) (.call g bs) callBody k)).and (R.tt.and .tt)) := rfl
+  rw [e]
+  by_cases hf : f = g
+  · by_cases hl : as.length = bs.length
+    · have hr : andRange as.length (fun k => semL N (equalX N) (.call f as) (.call g bs) callBody k) =
+          andAll (argR N) as bs := by
+        apply andRange_zip _ as bs _ hl
+        intro k hk
+        have hk' : k < bs.length := hl ▸ hk
+        rw [tie_cmp_call_elem N f g as bs k hk hk', List.getElem?_eq_getElem hk, List.getElem?_eq_getElem hk', opt2_some]
+      rw [hr, equalArgs_andAll N as bs hl]
+      simp [hf, hl, R.not]
+    · have : (as.length != bs.length) = true := by simpa [bne_iff_ne] using hl
+      simp [hf, hl, this, R.or, R.not]
+  · have : (f != g) = true := by simpa [bne_iff_ne] using hf
+    simp [hf, this, R.not]
+
+
+
+theorem bind_some_right {α : Type} (x : Option α) : x.bind some = x := by cases x <;> rfl
+
+def foldOpt {α : Type} (g : α → UInt64 → Option UInt64) : List α → UInt64 → Option UInt64
+  | [], h => some h
+  | x :: xs, h => (g x h).bind (foldOpt g xs)
+
+theorem foldRange_list {α : Type} (g : α → UInt64 → Option UInt64) :
+    ∀ (xs : List α) (f : Nat → UInt64 → Option UInt64),
+      (∀ k, k < xs.length → ∀ h, f k h = xs[k]?.bind (fun x => g x h)) →
+      ∀ h, foldRange xs.length f h = foldOpt g xs h
+  | [], _, _, _ => rfl
+  | x :: xs, f, hf, h => by
+    have h0 := hf 0 (by simp) h
+    simp only [List.getElem?_cons_zero, Option.bind_some] at h0
+    simp only [List.length_cons, foldRange, foldOpt, h0]
+    congr 1
+    funext h'
+    apply foldRange_list g xs (fun k => f (k + 1))
+    intro k hk h''
+    have := hf (k + 1) (by simpa using hk) h''
+    simpa only [List.getElem?_cons_succ] using this
+
+theorem hashList_foldOpt : ∀ (as : List (E C)) (h : UInt64),
+    hashList P h as = foldOpt (fun x h => (hashX P x).map (combine h)) as h
+  | [], _ => rfl
+  | a :: as, h => by
+    simp only [hashList, foldOpt]
+    cases hashX P a with
+    | none => rfl
+    | some ha => simp only [Option.map_some, Option.bind_some]; exact hashList_foldOpt as _
+
+theorem plFold_foldOpt : ∀ (sb : List (C × C)) (h : UInt64),
+    some (plFold P h sb) = foldOpt (fun p h => some (combine (combine h (P.hDbl p.1)) (P.hDbl p.2))) sb h
+  | [], _ => rfl
+  | p :: ps, h => by simp only [plFold, foldOpt, Option.bind_some]; exact plFold_foldOpt ps _
+
+theorem foldl_foldOpt (g : UInt64 → UInt8 → UInt64) : ∀ (cs : List UInt8) (h : UInt64),
+    some (cs.foldl g h) = foldOpt (fun c h => some (g h c)) cs h
+  | [], _ => rfl
+  | c :: cs, h => by simp only [List.foldl_cons, foldOpt, Option.bind_some]; exact foldl_foldOpt g cs _
+
+theorem tie_hash_vararg (k : IterK) (as : List (E C)) (h : UInt64) :
+    hashList P h as =
+    semHL P combine (hashX P) (.iter k as) [.forRange .selfN [.combine (.argAt .idx)]] 0 h := by
+  have e : semHL P combine (hashX P) (.iter k as) [.forRange .selfN [.combine (.argAt .idx)]] 0 h =
+      (foldRange as.length (fun i h' => semHL P combine (hashX P) (.iter k as) [.combine (.argAt .idx)] i h') h).bind some := rfl
+  rw [e, bind_some_right, hashList_foldOpt]
+  symm
+  apply foldRange_list
+  intro i hi h'
+  simp only [semHL, semHS, evalHV, evalI, argAt, List.getElem?_eq_getElem hi, Option.bind_some]
+  cases hashX P as[i] <;> rfl
+
+theorem tie_hash_call (f : Nat) (as : List (E C)) (h : UInt64) :
+    hashList P (combine h (P.hFun f)) as =
+    semHL P combine (hashX P) (.call f as) [.combine .funcName, .forRange .selfN [.combine (.argAt .idx)]] 0 h := by
+  have e : semHL P combine (hashX P) (.call f as) [.combine .funcName, .forRange .selfN [.combine (.argAt .idx)]] 0 h =
+      (foldRange as.length (fun i h' => semHL P combine (hashX P) (.call f as) [.combine (.argAt .idx)] i h')
+        (combine h (P.hFun f))).bind some := rfl
+  rw [e, bind_some_right, hashList_foldOpt]
+  symm
+  apply foldRange_list
+  intro i hi h'
+  simp only [semHL, semHS, evalHV, evalI, argAt, List.getElem?_eq_getElem hi, Option.bind_some]
+  cases hashX P as[i] <;> rfl
+
+theorem tie_hash_str (s : List UInt8) (h : UInt64) :
+    some (strFold P h s) =
+    semHL P combine (hashX P) (.str s) [.forRange .strlen [.combine (.charAt .idx)]] 0 h := by
+  have e : semHL P combine (hashX P) (.str s) [.forRange .strlen [.combine (.charAt .idx)]] 0 h =
+      (foldRange (cstr s).length (fun i h' => semHL P combine (hashX P) (.str s) [.combine (.charAt .idx)] i h') h).bind some := rfl
+  rw [e, bind_some_right, strFold, foldl_foldOpt]
+  symm
+  apply foldRange_list
+  intro i hi h'
+  simp only [semHL, semHS, evalHV, evalI, strOf, List.getElem?_eq_getElem hi, Option.bind_some, Option.map_some]
+
+theorem tie_hash_pl (sb : List (C × C)) (last : C) (arg : E C) (h : UInt64) :
+    (match hashX P arg with
+     | none => none
+     | some ha => some (combine (combine (plFold P h sb) (P.hDbl last)) ha)) =
+    semHL P combine (hashX P) (.pl sb last arg)
+      [.forRange .selfN [.combine (.dAt .slope .idx), .combine (.dAt .breakpoint .idx)],
+       .combine (.dAt .slope .selfN), .combine .childArg] 0 h := by
+  have e : semHL P combine (hashX P) (.pl sb last arg)
+      [.forRange .selfN [.combine (.dAt .slope .idx), .combine (.dAt .breakpoint .idx)],
+       .combine (.dAt .slope .selfN), .combine .childArg] 0 h =
+      (foldRange sb.length (fun i h' => semHL P combine (hashX P) (.pl sb last arg)
+          [.combine (.dAt .slope .idx), .combine (.dAt .breakpoint .idx)] i h') h).bind
+        (fun h1 => (((dAt .slope (.pl sb last arg) sb.length).map P.hDbl).map (combine h1)).bind
+          (fun h2 => (((some arg : Option (E C)).bind (hashX P)).map (combine h2)).bind some)) := rfl
+  have hr : foldRange sb.length (fun i h' => semHL P combine (hashX P) (.pl sb last arg)
+          [.combine (.dAt .slope .idx), .combine (.dAt .breakpoint .idx)] i h') h = some (plFold P h sb) := by
+    rw [plFold_foldOpt]
+    apply foldRange_list
+    intro i hi h'
+    have h1 : dAt .slope (.pl sb last arg) i = some sb[i].1 := by simp [dAt, hi]
+    have h2 : dAt .breakpoint (.pl sb last arg) i = some sb[i].2 := by simp [dAt, hi]
+    simp only [semHL, semHS, evalHV, evalI, h1, h2, List.getElem?_eq_getElem hi, Option.bind_some, Option.map_some]
+  have hs : dAt .slope (.pl sb last arg) sb.length = some last := by simp [dAt]
+  rw [e, hr, hs]
+  simp only [Option.bind_some, Option.map_some]
+  cases hashX P arg <;> rfl
 
 end MpVerif.C18
